@@ -112,6 +112,23 @@ class TagCx:
         h = term[0]
         if h == "agg" and term[1].startswith(VAR + "::"):
             return {term[1].split("::")[-1]}
+        if h == "through":
+            # the value, known to be that variant: where `opt.filter(<kind predicate>)` kept it, the predicate held
+            return self.tags(term[2], at_block, depth + 1) & self.kept_by_filter(term[2])
+        if h == "call" and term[1] in ("std::option::Option::<T>::unwrap_or", "std::result::Result::<T, E>::unwrap_or") and len(term[2]) == 2 and term[2][1]:
+            # the payload where there is one, the default otherwise
+            out = set()
+            for a in term[2][0]:
+                if a[0] == "agg" and a[1] == "std::option::Option::None":
+                    continue
+                if a[0] == "agg" and a[1] in ("std::option::Option::Some", "std::result::Result::Ok") and len(a[2]) == 1:
+                    for x in a[2][0]:
+                        out |= self.tags(x, at_block, depth + 1)
+                    continue
+                out |= self.tags(a, at_block, depth + 1)
+            for dflt in term[2][1]:
+                out |= self.tags(dflt, at_block, depth + 1)
+            return out
         base = None
         isarg, k = self.is_arg(term)
         if isarg:
@@ -166,6 +183,28 @@ class TagCx:
         else:
             base = set(ALL)
         return self.refine(term, base, at_block)
+
+    def kept_by_filter(self, inner):
+        """Kinds the value `inner` can have where a normalised `Option::filter(<kind predicate>)` kept it: the pass-through
+        (`through Some`) of that very value is assigned only on the true edge of a kind predicate applied to it."""
+        b = self.b
+        out = set(ALL)
+        for bb, i, st in b.stmts():
+            if st["k"] == "assign" and st["rv"]["k"] == "through" and st["rv"].get("variant") == "Some":
+                src = {_unthrough(x) for x in self.o.of_operand(st["rv"]["op"])}
+                if _unthrough(inner) not in src:
+                    continue
+                here = set(ALL)
+                for sb, sw in self.br.switches():
+                    be = self.br.bool_edges(sb)
+                    if not be:
+                        continue
+                    for c in self.br.cond(sb):
+                        if c[0] == "call" and c[1] in IS_PRED and any(_unthrough(a) == _unthrough(inner) for a in c[2][0]) and \
+                                be[0] != be[1] and edge_dominates(b, (sb, be[0]), bb):
+                            here &= {IS_PRED[c[1]]}
+                out &= here
+        return out
 
     def _closure_tags(self, r, fold_term, at_block, depth):
         if depth > 8:
@@ -234,6 +273,12 @@ class TagCx:
                     elif tt != ft and edge_dominates(self.b, f_edge, at_block):
                         out -= {kind}
         return out
+
+
+def _unthrough(t):
+    while isinstance(t, tuple) and t and t[0] == "through":
+        t = t[2]
+    return t
 
 
 def same_value(a, b):
